@@ -21,7 +21,7 @@ type c06Msg struct {
 	pts     string
 }
 
-func c06Body(k int, tomb bool) mc.Body {
+func c06Body(k int, tomb bool, under ...bool) mc.Body {
 	return func(x *mc.X) mc.Outcome {
 		names := []string{"N1", "N2", "N3", "N4", "N5"}[:k]
 		type edge struct{ p, c string }
@@ -34,6 +34,11 @@ func c06Body(k int, tomb bool) mc.Body {
 				cand = append(cand, edge{names[i], names[j]})
 			}
 		}
+		// under: a node D outside the tree with the instance root (and N1) mirrored below it
+		withD := len(under) > 0 && under[0]
+		if withD {
+			cand = append(cand, edge{"D", "R"}, edge{"D", names[0]})
+		}
 		state := map[edge]int{} // 0 absent 1 live 2 deleted
 		arity := 2
 		if tomb {
@@ -41,7 +46,11 @@ func c06Body(k int, tomb bool) mc.Body {
 		}
 		nEdges := 0
 		for _, e := range cand {
-			state[e] = x.Choose(arity, "edge "+e.p+">"+e.c)
+			ar := arity
+			if e.c == "R" {
+				ar = 2 // the store refuses a tombstone on any edge above the instance root
+			}
+			state[e] = x.Choose(ar, "edge "+e.p+">"+e.c)
 			if state[e] > 0 {
 				nEdges++
 			}
@@ -70,7 +79,7 @@ func c06Body(k int, tomb bool) mc.Body {
 			if state[e] == 2 {
 				v = 1
 			}
-			err := client.SendEdgePoints(inst.Nc, e.c, id(e.p), data.Points{{Type: data.PointTypeTombstone, Value: v, Time: tick()}, {Type: data.PointTypeNodeType, Text: "vtest"}}, true)
+			err := client.SendEdgePoints(inst.Nc, id(e.c), id(e.p), data.Points{{Type: data.PointTypeTombstone, Value: v, Time: tick()}, {Type: data.PointTypeNodeType, Text: "vtest"}}, true)
 			x.Step(1)
 			if err != nil {
 				return mc.Outcome{Violation: fmt.Sprintf("HARNESS: building shape: edge %s>%s: %v", e.p, e.c, err), Key: "harness"}
@@ -93,12 +102,12 @@ func c06Body(k int, tomb bool) mc.Body {
 
 		// reference reachability. parents(n, any): ids of parents; the instance root's parent is the sentinel "root".
 		parents := func(n string, any bool) []string {
-			if n == root {
-				return []string{"root"}
-			}
 			var out []string
+			if n == root {
+				out = []string{"root"}
+			}
 			for _, e := range cand {
-				if e.c == n && (state[e] == 1 || (any && state[e] == 2)) {
+				if id(e.c) == n && (state[e] == 1 || (any && state[e] == 2)) {
 					out = append(out, id(e.p))
 				}
 			}
@@ -152,6 +161,9 @@ func c06Body(k int, tomb bool) mc.Body {
 		}
 
 		all := append([]string{root}, names...)
+		if withD {
+			all = append(all, "D")
+		}
 		// node points
 		for _, n := range all {
 			pts := data.Points{{Type: "v", Value: 1.5, Time: tick(), Origin: "o"}, {Type: "w", Key: "k", Text: "t", Time: tick()}}
@@ -203,10 +215,12 @@ func c06Body(k int, tomb bool) mc.Body {
 				cur = 1
 			}
 			writes = append(writes,
-				ew{e.c, id(e.p), data.Points{{Type: "role", Value: 2, Text: "r", Time: tick()}, {Type: "x", Key: "1", Time: tick()}}, fmt.Sprintf("edge points on %s>%s", e.p, e.c)},
-				ew{e.c, id(e.p), data.Points{{Type: "role", Value: 3, Time: tick()}, {Type: "role", Value: 4, Time: tick()}, {Type: "y", Time: tick()}, {Type: "role", Key: "0", Value: 5, Time: tick()}}, fmt.Sprintf("edge points on %s>%s (several samples of one identity in one batch)", e.p, e.c)},
-				ew{e.c, id(e.p), data.Points{{Type: data.PointTypeTombstone, Value: cur, Time: tick()}}, fmt.Sprintf("tombstone=%v re-sent on %s>%s", cur, e.p, e.c)},
-				ew{e.c, id(e.p), data.Points{{Type: data.PointTypeTombstone, Value: 1 - cur, Time: tick()}}, fmt.Sprintf("tombstone flipped to %v on %s>%s", 1-cur, e.p, e.c)})
+				ew{id(e.c), id(e.p), data.Points{{Type: "role", Value: 2, Text: "r", Time: tick()}, {Type: "x", Key: "1", Time: tick()}}, fmt.Sprintf("edge points on %s>%s", e.p, e.c)},
+				ew{id(e.c), id(e.p), data.Points{{Type: "role", Value: 3, Time: tick()}, {Type: "role", Value: 4, Time: tick()}, {Type: "y", Time: tick()}, {Type: "role", Key: "0", Value: 5, Time: tick()}}, fmt.Sprintf("edge points on %s>%s (several samples of one identity in one batch)", e.p, e.c)},
+				ew{id(e.c), id(e.p), data.Points{{Type: data.PointTypeTombstone, Value: cur, Time: tick()}}, fmt.Sprintf("tombstone=%v re-sent on %s>%s", cur, e.p, e.c)})
+			if e.c != "R" {
+				writes = append(writes, ew{id(e.c), id(e.p), data.Points{{Type: data.PointTypeTombstone, Value: 1 - cur, Time: tick()}}, fmt.Sprintf("tombstone flipped to %v on %s>%s", 1-cur, e.p, e.c)})
+			}
 		}
 		for _, w := range writes {
 			seen = nil
@@ -247,7 +261,7 @@ func c06Body(k int, tomb bool) mc.Body {
 		}
 		flip := func() {
 			for _, e := range cand {
-				if state[e] != 0 {
+				if state[e] != 0 && e.c != "R" {
 					state[e] = 3 - state[e]
 				}
 			}
@@ -257,14 +271,14 @@ func c06Body(k int, tomb bool) mc.Body {
 			return *v
 		}
 		for _, e := range cand {
-			if state[e] == 0 {
+			if state[e] == 0 || e.c == "R" {
 				continue
 			}
 			back := 1.0 // state now deleted -> originally live -> send tombstone 0
 			if state[e] == 2 {
 				back = 0
 			}
-			if err := client.SendEdgePoints(inst.Nc, e.c, id(e.p), data.Points{{Type: data.PointTypeTombstone, Value: back, Time: tick()}}, true); err != nil {
+			if err := client.SendEdgePoints(inst.Nc, id(e.c), id(e.p), data.Points{{Type: data.PointTypeTombstone, Value: back, Time: tick()}}, true); err != nil {
 				return mc.Outcome{Violation: fmt.Sprintf("tombstone flipped back on %s>%s refused: %v", e.p, e.c, err), Key: "legal-write-refused"}
 			}
 			x.Step(1)
@@ -289,6 +303,7 @@ func keys(m map[string]bool) []string {
 func checkC06(r *mc.Report, thorough bool) {
 	rule := "every DAG shape over root + %d nodes (each of the %d candidate edges absent/live%s; chains, mirrors, diamonds, detached nodes, nodes with points but no edge) x every node: node-point batch, batches with several samples of one identity (rising / falling times); every edge: edge-point batch, batch with several samples of one identity, tombstone re-sent, tombstone flipped; then node points on every node in the flipped shape, all edges flipped back, node points again; the set of up.* subjects seen by a spy must equal the set computed by graph reachability (node points: live edges; edge points: any edges; up.root.* iff the instance root is reached), payload identical"
 	r.Explore(mc.Config{Name: "shapes-k3", Rule: fmt.Sprintf(rule, 3, 6, "/tombstoned"), SplitDepth: 4, SelfCheckEvery: 200}, c06Body(3, true))
+	r.Explore(mc.Config{Name: "root-mirrored-k2", Rule: fmt.Sprintf(rule, 2, 5, "/tombstoned") + "; here the 5 candidate edges include D>root (absent/live: the store refuses to delete an edge above the root) and D>N1 for a node D outside the tree (the instance root itself has a second parent)", SplitDepth: 3}, c06Body(2, true, true))
 	if thorough {
 		r.Explore(mc.Config{Name: "shapes-k4", Rule: fmt.Sprintf(rule, 4, 10, "/tombstoned"), SplitDepth: 5}, c06Body(4, true))
 	} else {
@@ -301,6 +316,7 @@ func checkC06(r *mc.Report, thorough bool) {
 func init() {
 	registerSharded("C06", "model_checking", checkC06)
 	bodies["C06/shapes-k3"] = c06Body(3, true)
+	bodies["C06/root-mirrored-k2"] = c06Body(2, true, true)
 	bodies["C06/shapes-k4"] = c06Body(4, true)
 	bodies["C06/shapes-k4-live"] = c06Body(4, false)
 }
